@@ -134,9 +134,11 @@ func run(e *sys.Env, c Case) (*runResult, string) {
 	defer vtime.SetPassThrough()
 	opCount := 0
 	inBusiness := false
+	self := memdb.GoroutineID()
+	e.Srv.WantGID = true
 	e.Srv.Fault = func(op memdb.Op) error {
-		if !inBusiness || op.Kind == "connect" {
-			return nil
+		if !inBusiness || op.Kind == "connect" || op.GID != self {
+			return nil // only the business thread's own database operations are steps
 		}
 		k := opCount
 		opCount++
@@ -331,6 +333,19 @@ func Enumerate(e *sys.Env, thorough bool, yield func(idx int, c Case)) int {
 	idx := 0
 	for _, p := range programs(thorough) {
 		base, _ := run(e, Case{Program: p})
+		if os.Getenv("VERIF_DEBUG_DET") != "" && base != nil {
+			j1 := e.Srv.Journal()
+			b2, _ := run(e, Case{Program: p})
+			if b2 != nil && (b2.dbOps != base.dbOps || b2.registers != base.registers) {
+				fmt.Printf("NONDET program=%s ops %d vs %d\n", shape(p), base.dbOps, b2.dbOps)
+				for _, j := range j1 {
+					fmt.Printf("   A c%d %s %.80q\n", j.Conn, j.Kind, j.SQL)
+				}
+				for _, j := range e.Srv.Journal() {
+					fmt.Printf("   B c%d %s %.80q\n", j.Conn, j.Kind, j.SQL)
+				}
+			}
+		}
 		yield(idx, Case{Program: p})
 		idx++
 		if base == nil {
